@@ -69,10 +69,15 @@ structure Options where
   truncCut : Option Rat
 deriving Repr
 
+/-- the double written `1.0e-14` in the source: `6338253001141147 / 2^99` -/
+def f1em14 : Rat := 6338253001141147 / 633825300114114700748351602688
+
+/-- the double written `1.0e-10` in the source: `7737125245533627 / 2^86` -/
+def f1em10 : Rat := 7737125245533627 / 77371252455336267181195264
+
 /-- the defaults of `options.get(..)` in `truncate` (used for keys that are absent) -/
 def Options.default : Options :=
-  { chiMax := some 100, chiMin := none, degR := none,
-    svdMin := some (1 / 100000000000000), truncCut := some (1 / 100000000000000) }
+  { chiMax := some 100, chiMin := none, degR := none, svdMin := some f1em14, truncCut := some f1em14 }
 
 /-! ### sorting (`piv = np.argsort(logS)`) -/
 
@@ -187,8 +192,6 @@ structure Result where
   warnNeg   : Bool
 deriving Repr
 
-def tenTo10 : Rat := 10000000000
-
 def truncate (tiny : Rat) (o : Options) (S : List Rat) : Result :=
   let piv := sortIdx tiny S
   let ss := piv.map (·.1)
@@ -205,8 +208,8 @@ def truncate (tiny : Rat) (o : Options) (S : List Rat) : Result :=
     norm2 := sumSq kept
     err := TruncErr.fromS disc none
     dropped := st.2
-    warnSmall := !(S.any (fun x => decide (1 / tenTo10 < x)))
-    warnNeg := S.any (fun x => decide (x < -(1 / tenTo10))) }
+    warnSmall := !(S.any (fun x => decide (f1em10 < x)))
+    warnNeg := S.any (fun x => decide (x < -f1em10)) }
 
 /-- `truncate` with its two ways of raising: `ValueError('trunc_cut >=1.')`, and the `IndexError` of
 `np.nonzero(good)[0][0]` on an empty spectrum. -/
